@@ -820,6 +820,62 @@ Section Proofs.
     - apply (proj2 (v_drop s h V i ltac:(fold n; fold u; unfold usable; lia))).
   Qed.
 
+  (* ---- ExtendLeft: extending an already scored n-gram with further left context = scoring with it at once ---- *)
+  Lemma firstn_app_ge : forall (c1 c2 : list word) i, firstn (S (length c1 + i)) (c1 ++ c2) = c1 ++ firstn (S i) c2.
+  Proof.
+    intros c1 c2 i. rewrite firstn_app. rewrite firstn_all2 by lia. f_equal. f_equal. lia.
+  Qed.
+
+  Lemma sum_bo_ext : forall c1 c2 m a,
+    sum_bo (map (fun i => bv (c1 ++ firstn (S i) c2)) (seq a m)) = sumbo (c1 ++ c2) m (length c1 + a).
+  Proof.
+    intros c1 c2 m. induction m as [|m IH]; intros a; [reflexivity|].
+    cbn [seq map sum_bo fold_right sumbo]. rewrite bv_fst. rewrite firstn_app_ge. unfold sum_bo in IH. rewrite IH.
+    replace (S (length c1 + a)) with (length c1 + S a)%nat by lia. reflexivity.
+  Qed.
+
+  Theorem extend_left_rescoring : forall c1 c2 w e,
+    T (w :: c1) = Some e -> (length (c1 ++ c2) <= N_order - 1)%nat ->
+    let bin := map (fun i => bv (c1 ++ firstn (S i) c2)) (seq 0 (length c2)) in
+    let '(r, bos, nu) := extend_left N_order T c2 bin (w :: c1) in
+    (* .prob is relative to the .rest returned before (= e_rest e): adding it back gives the full back-off score *)
+    r_prob r + e_rest e = spec M (c1 ++ c2) w (length (c1 ++ c2)) /\
+    (* the matched entry is the longest stored n-gram along the whole context *)
+    (exists e', T (w :: firstn (r_len r - 1) (c1 ++ c2)) = Some e' /\
+       forall i, (r_len r - 1 < i <= length (c1 ++ c2))%nat -> T (w :: firstn i (c1 ++ c2)) = None) /\
+    (length c1 < r_len r)%nat.
+  Proof.
+    intros c1 c2 w e He Hlen bin. unfold extend_left. cbn [length]. rewrite He.
+    set (ctx := c1 ++ c2) in *.
+    set (r0 := {| r_prob := e_prob e; r_len := S (length c1);
+                  r_indep := (if Nat.eqb (S (length c1)) 1 then negb (e_left e) else false); r_ext := w :: c1; r_rest := e_rest e |}).
+    assert (Hf : firstn (length c1) ctx = c1) by (unfold ctx; rewrite firstn_app, firstn_all, Nat.sub_diag, firstn_O, app_nil_r; reflexivity).
+    assert (Hs : skipn (length c1) ctx = c2) by (unfold ctx; rewrite skipn_app, skipn_all, Nat.sub_diag; reflexivity).
+    replace (S (length c1) - 1)%nat with (length c1) by lia.
+    pose proof (resume_ret c2 ctx w (length c1) [] (S (length c1)) r0 e (eq_sym Hs)) as HR.
+    rewrite Hf in HR.
+    assert (Hlc : (length c1 <= length ctx)%nat) by (unfold ctx; rewrite app_length; lia).
+    specialize (HR Hlc Hlen He eq_refl eq_refl).
+    assert (Hind : r_indep r0 = true -> forall x, T ((w :: c1) ++ [x]) = None).
+    { cbn [r_indep r0]. destruct (Nat.eqb_spec (S (length c1)) 1) as [E1|E1]; [|discriminate].
+      intros Hn x. apply negb_true_iff in Hn.
+      destruct (T ((w :: c1) ++ [x])) eqn:Ex; [|reflexivity]. exfalso.
+      assert (e_left e = true) by (apply (i_left Inv _ e He); [cbn [length]; lia|exists x; rewrite Ex; discriminate]). congruence. }
+    specialize (HR Hind). destruct HR as [J [e' [HJ [HT [HP [HL HM]]]]]].
+    destruct (resume N_order T c2 (length c1) (w :: c1) [] (S (length c1)) r0) as [[bos nu] r] eqn:ER.
+    cbn [snd] in HP, HL. cbn [r_prob r_len]. rewrite HL. replace (S J - 1)%nat with J by lia.
+    split; [|split; [exists e'; split; [exact HT|exact HM]|lia]].
+    (* charged back-offs *)
+    unfold bin. rewrite skipn_map, skipn_seq'. cbn [Nat.add]. rewrite firstn_map.
+    rewrite firstn_all2 by (rewrite seq_length; lia).
+    rewrite sum_bo_ext. fold ctx.
+    assert (Hcl : length ctx = (length c1 + length c2)%nat) by (unfold ctx; apply app_length).
+    replace (length c1 + (S J - S (length c1)))%nat with J by lia.
+    replace (length c2 - (S J - S (length c1)))%nat with (length ctx - J)%nat by lia.
+    rewrite (spec_miss_above ctx w (length ctx) J) by (try lia; intros i Hi; apply (i_sub Inv); apply HM; lia).
+    rewrite <- (stored_prob ctx w J e') by (try lia; assumption). rewrite HP. lia.
+  Qed.
+
   Theorem equal_states_equal_backoffs : forall s1 h1 s2 h2,
     valid s1 h1 -> valid s2 h2 -> s_words s1 = s_words s2 ->
     s_bo s1 = s_bo s2 /\ forall w, full_score N_order T s1 w = full_score N_order T s2 w.
